@@ -98,7 +98,12 @@ def build(plain=False, repo=REPO, quiet=False):
         return d, {"cached": True, "srchash": key, "wall_s": 0.0}
     shutil.rmtree(d, ignore_errors=True)
     os.makedirs(os.path.join(d, "obj"), exist_ok=True)
-    cmds = compile_commands(repo)
+    cmds = []
+    for attempt in range(4):          # another make running in the same tree can make one dry run come back empty
+        cmds = compile_commands(repo)
+        if len(cmds) >= 100:
+            break
+        time.sleep(5 + 10 * attempt)
     if len(cmds) < 100:
         raise RuntimeError("build.py: could not derive compile commands from make -n (%d found)" % len(cmds))
     base = SAN_FLAGS if not plain else PLAIN_FLAGS
